@@ -493,6 +493,10 @@ def _common_msa(proc, in_path, report):
     tree = build_tree(order, rng)
     report["tree"] = canon_tree(tree)
     text = write_alignment_text(rows, order, rng, script.get("out", "ok"))
+    if script.get("case") == "lower" and script.get("out", "ok") == "ok":
+        # some programs (MAFFT for nucleotides) print the residues in lower case; the rows are the same alignment
+        text = "".join(l if l.startswith(">") else l.lower() for l in text.splitlines(keepends=True))
+        SimPopen.world.stats["sim:tool-output-lower-case"] += 1
     return rng, recs, rows, order, tree, text, None
 
 
